@@ -18,6 +18,7 @@ PID = "C09"
 
 
 def explore(work, funcs, workers=12, timeout=1500):
+    work = Path(work)
     C.write_ndjson(work / "dump.ndjson", funcs)
     r = C.tlc("ExploreVM", "ExploreVM", work / "explore", env=dict(DUMP=str(work / "dump.ndjson")),
               workers=workers, timeout=timeout, heap_mb=8000)
@@ -104,8 +105,20 @@ def run(tier, replay=None):
     if len(funcs) < 50:
         raise C.ToolError(f"only {len(funcs)} functions dumped")
     C.log(f"[{PID}] {len(allsrc)} programs ({not_compiled} rejected by the compiler), {len(funcs)} distinct functions")
-    ex = explore(work, funcs)
-    bad = ex.prints.get("BAD", [])
+    # all-paths exploration, in chunks (one TLC run per 12 000 functions keeps each run short and its memory bounded)
+    class _Acc:
+        distinct = 0
+        generated = 0
+    ex = _Acc()
+    bad = []
+    CH = 12000
+    for k in range(0, len(funcs), CH):
+        part = funcs[k:k + CH]
+        r = explore(C.fresh_dir(work / f"explore{k}"), part, timeout=3000)
+        ex.distinct += r.distinct
+        ex.generated += r.generated
+        for b in r.prints.get("BAD", []):
+            bad.append(dict(b, fi=b["fi"] + k))
     for b in bad:
         f = funcs[b["fi"] - 1]
         ins = f["code"][b["ip"]] if b["ip"] < len(f["code"]) else None
